@@ -77,7 +77,7 @@ OCCUPIED_BRANCH = Contract(
                               "forall(STR, lambda k: (k in p) == old(k in p) and implies(k in p, p[k] == old(p[k])))))"),
     ],
     frame=["Params.p_has", "Params.p_val"],
-    props=["C04"],
+    props=["C04", "C02"],      # C02: the back-off branch must not raise (TypeError / ... are traversal errors)
     assumes=["extracted block: the surrounding loop is not part of this contract (see module docstring)",
              "round(x, 2) is within 0.005 of x (floating point treated as real arithmetic)"],
 )
@@ -249,4 +249,26 @@ ROOT_STEP = Contract(
     frame=["EdgeRegister._registry"],
     props=["C02"],
     assumes=["extracted block: the surrounding loop is not part of this contract (see module docstring)"],
+)
+
+
+# ---------------------------------------------------------------- object creation: the pre-step inherits ALL results (C10, C03)
+def pre_node_results(fn):
+    out = [s for s in ast.walk(fn) if isinstance(s, ast.Assign) and ast.unparse(s.targets[0]) == "pre_node.results"]
+    return out[:1] if len(out) == 1 else []
+
+
+PRE_NODE_RESULTS = Contract(
+    target=f"{GRAPH}::TestGraph.traverse_terminal_node", name="TestGraph.traverse_terminal_node#pre_node_results",
+    block=("pre_node_results", pre_node_results),
+    params={"pre_node": Ref("TestNode"), "test_node": Ref("TestNode")},
+    requires=["pre_node != test_node"],
+    ensures=[
+        # the number of results so far is what makes the identifier of the next execution distinct (uid suffix rN): the
+        # configuration pre-step must count every earlier try of the installation, whatever its status
+        ("pre_step_counts_every_earlier_try", "pre_node.results == test_node.results"),
+        ("install_results_untouched", "test_node.results == old(test_node.results)"),
+    ],
+    frame=["TestNode.results"], props=["C10", "C03", "C02"],
+    assumes=["extracted block: the statement of traverse_terminal_node that seeds the results of the configuration pre-step"],
 )
